@@ -32,7 +32,18 @@
 (* gap(len) of the code is nprimes + MIN_KERNEL_SIZE - len (1000 for an    *)
 (* empty store); here Need stands for nprimes + MIN_KERNEL_SIZE and FB for *)
 (* the factor base size; the code only knows nprimes <= FB, so Need <= FB  *)
-(* and Need > FB are both possible a priori (two families of configs).     *)
+(* and Need > FB are both possible (two families of configs; Need <= FB    *)
+(* was observed on the real code: oversized fb_size, or large_factor = 1   *)
+(* at 150+ bits).                                                          *)
+(*                                                                         *)
+(* FINDING (fixed in /repo): ReadGap and StoreGap are separate steps, so a *)
+(* stale non-zero gap can be stored after another worker stored gap = 0    *)
+(* and done; with the old final test (FinalTestsDone = FALSE) Finalize     *)
+(* then panics although enough relations exist whenever len <= FB.  TLC    *)
+(* finds it (MC_SieveProto_hazard.cfg violates NoSpuriousPanic); the same  *)
+(* schedule was replayed on the real code with a gate at the sched points  *)
+(* and produced the panic.  With the fixed test NoSpuriousPanic holds for  *)
+(* Need <= FB too (MC_SieveProto_needle.cfg).                              *)
 (***************************************************************************)
 EXTENDS Naturals, FiniteSets, TLC
 
@@ -47,6 +58,8 @@ CONSTANTS Workers,        \* pool threads
           Seq,            \* TRUE: no pool, the sequential loop
           UseLock,        \* FALSE: mutation - inserts without the write lock
           UseGapAtomic,   \* FALSE: MPQS flavour (no gap atomic, no panic test)
+          FinalTestsDone, \* TRUE: the final test reads `done` (current code, after the fix of the stale-gap
+                          \* panic); FALSE: it reads `gap` (the code before the fix, kept to show the hazard)
           AbortEnabled    \* TRUE: the AbortFlips fault action exists
 
 VARIABLES pc, mpc, tasks, lock, store, doneW, doneLast, gapW, gapLast, targetW, targetLast, polys,
@@ -110,10 +123,14 @@ FinalAbortCheck ==
         /\ UNCHANGED <<pc, tasks, lock, store, doneW, doneLast, gapW, gapLast, targetW, targetLast, polys, abortFlag,
                        idx, raw, tmp, rlen, rgap, ins, lenIns, sawAbort, unitsAfterTrue, unitsAfterFlip, sieved, stoppedEarly>>
 
-\* siqs.rs:150-170  into_inner, truncate, the panic test, final_step
+\* siqs.rs:150-170  into_inner, truncate, the panic test, final_step.  The test was
+\*   if s.gap.load(Relaxed) != 0 && rels.len() <= fbase.len() { panic!(..) }
+\* and is, since the fix of the stale-gap panic found with this model and reproduced on the code,
+\*   if !s.done.load(Relaxed) && rels.len() <= fbase.len() { panic!(..) }
 Finalize ==
         /\ mpc = "m_final"
-        /\ mpc' = IF UseGapAtomic /\ gapLast # 0 /\ store.len <= FB THEN "m_panic" ELSE "m_done"
+        /\ mpc' = IF UseGapAtomic /\ store.len <= FB /\ (IF FinalTestsDone THEN ~doneLast ELSE gapLast # 0)
+                  THEN "m_panic" ELSE "m_done"
         /\ UNCHANGED <<pc, tasks, lock, store, doneW, doneLast, gapW, gapLast, targetW, targetLast, polys, abortFlag,
                        idx, raw, tmp, rlen, rgap, ins, lenIns, sawAbort, unitsAfterTrue, unitsAfterFlip, sieved, stoppedEarly>>
 
